@@ -44,6 +44,8 @@ def gen_case(rng, idx, tier):
     else:
         pool = sorted({a + (b - a) * F(i, 41) for i in range(0, 42)} | set(ref.distinct(U)))
         nodes = sorted(rng.sample(pool, min(cnt, len(pool))))
+        if rng.random() < 0.5:
+            rng.shuffle(nodes)  # (z_k, Z_k) pairs may come in any order
         cnt = len(nodes)
     d["nodes"] = lib.enc(nodes)
     d["count"] = cnt
